@@ -1,0 +1,33 @@
+//go:build verif
+
+// Verification hooks (build tag "verif"): count the frames that are queued for delivery but not yet
+// written, so that a harness can wait until the writer goroutines are idle.
+
+package pubsub
+
+import (
+	"runtime"
+	"sync/atomic"
+	"time"
+)
+
+var verifPending atomic.Int64
+
+func verifQueued()  { verifPending.Add(1) }
+func verifWritten() { verifPending.Add(-1) }
+
+// VerifQuiesce waits until every queued frame has been written; false when the timeout passes first.
+func VerifQuiesce(timeout time.Duration) bool {
+	deadline := time.Now().Add(timeout)
+	for verifPending.Load() != 0 {
+		if time.Now().After(deadline) {
+			return false
+		}
+		runtime.Gosched()
+		time.Sleep(20 * time.Microsecond)
+	}
+	return true
+}
+
+// VerifPending returns the number of frames queued and not yet written.
+func VerifPending() int64 { return verifPending.Load() }
